@@ -125,11 +125,13 @@ def render_steps(doc, table, cover, n, first_types=("given", "when", "then"), pr
     last = prev
     for i in range(n):
         has_star = any(a.startswith("*") for a in table["given"])
-        kinds = list(first_types) if last is None else STEP_TYPES + (["star"] if has_star else [])
+        kinds = (list(first_types) if last is None else STEP_TYPES) + (["star"] if has_star else [])
         kind = rnd.choice(kinds)
         if kind == "star":
             kw = "* "
-            stype = last
+            # a "*" step that opens its container is a Given step (and sets the type And/But inherit); after
+            # And/But steps that took their type from the background it inherits that type as well
+            stype = last if (last is not None or i > 0) else "given"
         else:
             kw = pick_kw(rnd, table, kind, cover)
             stype = kind if kind in ("given", "when", "then") else last
